@@ -58,6 +58,7 @@ def make_man_class():
                 "facade": self._facade is not None, "spa": self._spa is not None,
                 "spa_connected": bool(self._spa is not None and self._spa.is_connected),
                 "descriptors": self._spa_descriptors is not None,
+                "block_blank": bool(self._spa is not None and self._spa.struct.status_block == bytes(1024)),
                 "text": ss.state if ss is not None else None,
                 "task": task.get_name() if task else "?", "pre_ix": stack[-1]["ix"] if stack else None})
             if self.raise_map.get(event.name, 0) > 0:
@@ -130,6 +131,9 @@ class Scenario:
                     return None if counts[verb] % (k + 1) == 0 else "drop"
                 return None
             W.c2s_filter = flt
+        elif action == "nostatu":
+            # everything gets through except the status-block requests (the handshake's last step / the periodic refresh)
+            W.c2s_filter = (lambda data: "drop" if b"<DATAS>STATU" in data else None)
         elif action == "noping":
             # pings never get through, everything else suffers the cyclic loss pattern `arg`
             W.c2s_filter = (lambda data: "drop" if b"<DATAS>APING" in data else None)
@@ -242,7 +246,7 @@ def run_scenario(case, *, recover_bound, mirror_wait=0.0, detect_bound=None, on_
 
             rec["clear"] = []   # [t_start, t_end] intervals in which the network was fault-free
             for kind, dur, arg in case["phases"]:
-                if kind not in ("healthy", "blackout", "rferr", "lossy", "neterr", "noping", "slowhs"):
+                if kind not in ("healthy", "blackout", "rferr", "lossy", "neterr", "noping", "slowhs", "nostatu"):
                     raise InvalidCase(kind)
                 if kind != "healthy" and man.spa_state in busy + (GeckoSpaState.IDLE,):
                     rec["overlap"] = True
